@@ -162,8 +162,9 @@ def proj(st):
 
 
 def run(ctx):
+    # thorough: ASan/UBSan and the library's own asserts on (e.g. "Destroy of pending future")
     rp = vlib.compile_harness(vlib.VERIF + "/harness/limited_queue_replay.cpp", "limited_queue_replay",
-                              sanitize=not ctx.quick)
+                              sanitize=not ctx.quick, ndebug=ctx.quick)
     sd = os.path.join(vlib.VERIF, "spec", SPEC)
 
     # 1. every history of one client over push/pop/unblock_push/unblock_pop/destroy, limits 1..4
